@@ -16,6 +16,8 @@
 //!       {"do":"poison","l":"a","after_ms":n}        a connection whose service call panics (worker thread dies); the step
 //!                                                   returns n ms after the call started to panic
 //!   "slow_drop_ms": the destructor of listener a's service instances takes that long
+//!       {"do":"connect_rst","l":"a","n":k}         k clients connect to listener a and abort at once (RST)
+//!       {"do":"await_called","count":n,"ms":3000}    wait until n service calls in total have begun
 //!       {"do":"stress","threads":n,"each":m}       n client threads x m short connections on listener a
 //!       {"do":"stop","graceful":bool}
 
@@ -69,6 +71,8 @@ struct Shared {
     poison_next: AtomicBool,
     /// stress connections served
     quick: AtomicUsize,
+    /// service calls begun (whatever the connection then does)
+    called: AtomicUsize,
     /// stress connections stay in their service for that many microseconds (so that they overlap)
     hold_us: AtomicUsize,
     /// largest number of service futures alive at once on ONE worker thread (measured inside the services)
@@ -115,6 +119,7 @@ impl Drop for SlowDrop {
 
 async fn serve<S: AsyncReadExt + Unpin>(mut stream: S, tag: &'static str, sh: Arc<Shared>) -> Result<(), ()> {
     let _live = LiveGuard::new(&sh);
+    sh.called.fetch_add(1, Ordering::SeqCst);
     let mut b = [0u8; 1];
     if stream.read_exact(&mut b).await.is_err() {
         return Ok(());
@@ -155,6 +160,7 @@ pub fn run_scenario(sc: &Value, dir: &str) -> Vec<Value> {
         poison_next: AtomicBool::new(false),
         quick: AtomicUsize::new(0),
         hold_us: AtomicUsize::new(0),
+        called: AtomicUsize::new(0),
         max_live: AtomicUsize::new(0),
     });
     let uds_path = format!("{dir}/{}.sock", sc["name"].as_str().unwrap_or("x"));
@@ -376,6 +382,27 @@ pub fn run_scenario(sc: &Value, dir: &str) -> Vec<Value> {
                 res["served"] = json!(sh.quick.load(Ordering::SeqCst) - before);
                 // (a phase cut short by its deadline has not shown that every connection is served)
                 res["ok"] = json!(ok && sent == threads * each);
+            }
+            "connect_rst" => {
+                // clients that connect and abort at once (SO_LINGER 0: the kernel sends RST).  A connection that was reset
+                // while it sat in the backlog is still handed out by accept(): it must reach its service like any other
+                let n = st["n"].as_u64().unwrap_or(1);
+                let mut done = 0;
+                for _ in 0..n {
+                    if let Ok(s) = StdTcpStream::connect_timeout(&addr_a, Duration::from_secs(3)) {
+                        let _ = socket2::SockRef::from(&s).set_linger(Some(Duration::from_secs(0)));
+                        drop(s);
+                        done += 1;
+                    }
+                }
+                res["ok"] = json!(done == n);
+            }
+            "await_called" => {
+                let n = st["count"].as_u64().unwrap_or(0) as usize;
+                let ok = wait_until(Duration::from_millis(st["ms"].as_u64().unwrap_or(3000)), || sh.called.load(Ordering::SeqCst) >= n);
+                res["ok"] = json!(ok);
+                res["want"] = json!(n);
+                res["called"] = json!(sh.called.load(Ordering::SeqCst));
             }
             "await_started" => {
                 let n = st["count"].as_u64().unwrap_or(0) as usize;
